@@ -69,7 +69,7 @@ Definition name_lhs (op : N) (l r : lexpr) : bool :=
 
 Fixpoint anf (fuel : nat) (e : lexpr) (n : N) (k : K) {struct fuel} : aexpr * N :=
   match fuel with
-  | O => (ARet (CImm (IPrim [])), n)
+  | O => k (CImm (IPrim [])) n
   | S fuel =>
       (* anf_imm: atoms are passed on, anything else is named by a fresh temporary *)
       let anf_named := fun (e : lexpr) (n : N) (k : KI) =>
